@@ -495,6 +495,34 @@ impl<'c> Hist<'c> {
 		let mut mood = self.rng.below(4);
 		let mut mood_left = self.rng.range(5, 25);
 		let mut guards: Vec<(u8, Vec<u8>, Box<dyn std::any::Any>)> = vec![];
+		if self.accepted == 0 && self.restarts == 0 && !self.cfg.cols[0].multitree && !self.cfg.cols[0].btree_index && self.cfg.cols[0].uniform && self.cfg.salt == Some([0u8; 32]) && self.pools[0].len() >= 4 && self.rng.chance(1, 2) {
+			// opening of an identity-hashed history: the first four keys of the pool are a
+			// near-miss quartet (equal on bits 0..48, different in bits 48/49): on the empty page
+			// they take one aligned group of four slots while the index still has 16 bits - the
+			// only index size at which the vectorised search cannot tell them apart
+			let quartet: Vec<Vec<u8>> = self.pools[0][..4].to_vec();
+			if quartet.iter().all(|k| k[..6] == quartet[0][..6]) {
+				let one_tx = self.rng.chance(1, 2);
+				let mut tx = vec![];
+				for k in &quartet {
+					let v = gen::random_value(&mut self.rng, false);
+					tx.push(Op::Set(0, k.clone(), v));
+					if !one_tx {
+						self.commit_tx(db, rep, std::mem::take(&mut tx), None)?;
+						if self.rng.chance(1, 2) {
+							self.pipeline(db, rep, Step::ProcessCommits)?;
+						}
+						self.validate(db, rep, false)?;
+					}
+				}
+				if one_tx {
+					self.commit_tx(db, rep, tx, None)?;
+				}
+				self.pipeline(db, rep, Step::ProcessCommits)?;
+				self.validate(db, rep, false)?;
+				rep.count("near_miss_quartet_openings", 1);
+			}
+		}
 		while *steps_left > 0 {
 			*steps_left -= 1;
 			self.ctx.progress();
@@ -2077,6 +2105,21 @@ pub fn adversarial_pool(rng: &mut Rng, n: usize, strong: bool) -> (Vec<Vec<u8>>,
 	let mut keys: Vec<Vec<u8>> = vec![];
 	let mut groups: Vec<usize> = vec![];
 	let mut group_prefixes: Vec<(u64, usize)> = vec![];
+	{
+		// a near-miss quartet at the front of the pool: equal on the first 48 bits, bits 48/49
+		// take all four values (in random order)
+		let rest = rng.next() >> stay_bits;
+		let base = ((hot << 48) | (stay << (64 - stay_bits)) | (rest & ((1u64 << (64 - stay_bits)) - 1))) & !0xffffu64;
+		let mut low2: Vec<u64> = vec![0, 1, 2, 3];
+		rng.shuffle(&mut low2);
+		for b in low2 {
+			let prefix = base | (b << 14) | rng.below(1 << 14);
+			let mut k = prefix.to_be_bytes().to_vec();
+			k.extend_from_slice(&rng.bytes(24));
+			keys.push(k);
+			groups.push(usize::MAX);
+		}
+	}
 	while keys.len() < n {
 		let r = rng.below(10);
 		let (prefix, g) = if r < 6 || !strong {
@@ -2098,7 +2141,10 @@ pub fn adversarial_pool(rng: &mut Rng, n: usize, strong: bool) -> (Vec<Vec<u8>>,
 				continue
 			}
 			group_prefixes[gi].1 += 1;
-			((group_prefixes[gi].0 << 14) | rng.below(1 << 14), gi)
+			// one member in three is a NEAR miss of its group: equal on bits 0..48 (all the
+			// vectorised search compares while the index has 16 bits), different in bits 48/49
+			let near = if rng.chance(1, 3) { rng.range(1, 3) << 14 } else { 0 };
+			(((group_prefixes[gi].0 << 14) ^ near) | rng.below(1 << 14), gi)
 		} else {
 			(rng.next(), usize::MAX)
 		};
